@@ -31,6 +31,9 @@ type Opts struct {
 	// TickTimes: repeating commands (klog pause) run len(TickTimes) loop iterations; during
 	// iteration k the clock reads TickTimes[k] (before the loop it reads Now).
 	TickTimes []gotime.Time
+	// OnTick, if set, is called before loop iteration k (k = 0, 1, …) of a repeating command,
+	// e.g. to change the file between two refreshes of `klog today --follow`.
+	OnTick func(k int)
 }
 
 type Result struct {
@@ -100,6 +103,9 @@ func Run(home string, o Opts, args ...string) (res Result) {
 			return true
 		}
 		opts.Now = opts.TickTimes[done]
+		if opts.OnTick != nil {
+			opts.OnTick(int(done))
+		}
 		return false
 	}
 	res.Panicked, res.PanicVal, res.Stack = fw.Try(func() {
@@ -161,6 +167,9 @@ func Exec(home string, o Opts, cmd Runner) (res Result) {
 			return true
 		}
 		opts.Now = opts.TickTimes[done]
+		if opts.OnTick != nil {
+			opts.OnTick(int(done))
+		}
 		return false
 	}
 	res.Panicked, res.PanicVal, res.Stack = fw.Try(func() {
